@@ -157,22 +157,6 @@ Section Exec.
     | Err e => Err e
     end.
 
-  (* one statement per parameter set (DBAPI executemany / downgraded insertmanyvalues / single execute) *)
-  Fixpoint exec_rows (step : table -> row -> list (option Z) -> res (table * option row))
-      (t : table) (ps : list prow) : res (table * list row) :=
-    match ps with
-    | [] => Ok (t, [])
-    | (r, bp) :: rest =>
-        match db_stmt step t [r] bp with
-        | Err e => Err e
-        | Ok (t', rs) =>
-            match exec_rows step t' rest with
-            | Err e => Err e
-            | Ok (t'', rs') => Ok (t'', rs ++ rs')
-            end
-        end
-    end.
-
   (* batch_size parameter sets per statement *)
   Fixpoint chunks {A} (fuel n : nat) (l : list A) : list (list A) :=
     match fuel with
@@ -180,17 +164,17 @@ Section Exec.
     | S f => match l with [] => [] | _ :: _ => firstn n l :: chunks f n (skipn n l) end
     end.
 
-  (* one multi-row VALUES statement per batch; every bound parameter outside the VALUES list is taken
-     from the FIRST parameter set of the batch *)
-  Fixpoint exec_batches (step : table -> row -> list (option Z) -> res (table * option row))
-      (t : table) (bs : list (list prow)) : res (table * list row) :=
-    match bs with
+  (* a plan: the statements of the executemany, each with the bound parameters used OUTSIDE its VALUES
+     list and the rows of its VALUES list *)
+  Fixpoint exec_plan (step : table -> row -> list (option Z) -> res (table * option row))
+      (t : table) (pl : list (list (option Z) * list row)) : res (table * list row) :=
+    match pl with
     | [] => Ok (t, [])
-    | b :: rest =>
-        match db_stmt step t (map fst b) (match b with (_, bp) :: _ => bp | [] => [] end) with
+    | (bp, rows) :: rest =>
+        match db_stmt step t rows bp with
         | Err e => Err e
         | Ok (t', rs) =>
-            match exec_batches step t' rest with
+            match exec_plan step t' rest with
             | Err e => Err e
             | Ok (t'', rs') => Ok (t'', rs ++ rs')
             end
@@ -198,22 +182,40 @@ Section Exec.
     end.
 
   (* SQLite / PostgreSQL: construct -> clause text -> database; executemany strategy.
-     [lit_exec]: the dialect renders index_where with literal_execute (sqlite);
-     [embed]: the VALUES list embeds a counter (never on SQLite) *)
-  Definition exec_impl (lit_exec embed : bool) (cols : list coldesc) (ixs : list uindex)
+     [sqlite]: index_where is rendered with literal_execute and the paramstyle is positional (false:
+     PostgreSQL, named paramstyle);
+     [embed]: the VALUES list embeds a counter (PostgreSQL with a server-generated sentinel; never on
+     SQLite).  Without RETURNING an upsert never uses insertmanyvalues (crud.py): DBAPI executemany. *)
+  Definition batched (embed returning sorted : bool) (n : nat) (sa : list sa_clause) : bool :=
+    returning && Nat.ltb 1 n &&
+    negb (use_row_at_a_time sorted returning false true embed (existsb has_set_par sa)).
+
+  Definition first_bp (l : list prow) : list (option Z) :=
+    match l with (_, bp) :: _ => bp | [] => [] end.
+
+  (* batched: one multi-row VALUES statement per page; the parameters outside the VALUES list come from
+     the first parameter set OF THE BATCH with a positional paramstyle (extra_params_left/right =
+     batch[0][..]) and from the first parameter set OF THE EXECUTEMANY with a named one
+     (base_parameters = parameters[0]).  Not batched: every parameter set is its own statement. *)
+  Definition plan (positional b : bool) (page : nat) (ps : list prow)
+      : list (list (option Z) * list row) :=
+    if b then
+      map (fun ch => (if positional then first_bp ch else first_bp ps, map fst ch))
+          (chunks (length ps) (Nat.max 1 page) ps)
+    else map (fun p => (snd p, [fst p])) ps.
+
+  Definition exec_impl (sqlite embed : bool) (cols : list coldesc) (ixs : list uindex)
       (sa : list sa_clause) (returning sorted : bool) (page : nat) (t : table) (ps : list prow)
       : res (table * list row) :=
     if negb (chain_ok sa) then Err EInvalidRequest
-    else if lit_exec && existsb uses_literal_execute sa && Nat.ltb 1 (length ps) then Err EInvalidRequest
+    else if sqlite && existsb uses_literal_execute sa && Nat.ltb 1 (length ps) then Err EInvalidRequest
     else
       match parse_clauses cols (r_clauses cols (map (asm_clause cols) sa)) with
       | None => Err EOperational
       | Some cls =>
           if negb (targets_ok ixs cls) then Err EOperational
-          else if returning && Nat.ltb 1 (length ps) &&
-                  negb (use_row_at_a_time sorted returning false true embed (existsb has_set_par sa))
-          then exec_batches (upsert_one ixs cls) t (chunks (length ps) (Nat.max 1 page) ps)
-          else exec_rows (upsert_one ixs cls) t ps
+          else exec_plan (upsert_one ixs cls) t
+                 (plan sqlite (batched embed returning sorted (length ps) sa) page ps)
       end.
 
   (* MySQL: no RETURNING; executemany is one statement per parameter set *)
@@ -221,6 +223,12 @@ Section Exec.
       (upd : list (Z * expr)) (t : table) (ps : list prow) : res (table * list row) :=
     match parse_mysql cols (r_mysql cols alias (my_asm cols ordered upd)) with
     | None => Err EOperational
-    | Some sets => exec_rows (my_upsert_one ixs sets) t ps
+    | Some sets => exec_plan (my_upsert_one ixs sets) t (plan false false 1 ps)
     end.
 End Exec.
+
+(* what the statements look like from outside: number of rows and the bound parameters they run with *)
+Definition plan_view (sqlite embed returning sorted : bool) (page : nat) (sa : list sa_clause)
+    (ps : list prow) : list (nat * list (option Z)) :=
+  map (fun x => (length (snd x), fst x))
+      (plan sqlite (batched embed returning sorted (length ps) sa) page ps).
